@@ -211,12 +211,25 @@ def parse_result(impl):
     return {x[0]: x[1:] for x in v if isinstance(x, list) and x}
 
 
+def well_formed(case, nargs):
+    """(mode x<utf8> WIDTH ...) with the right arity; anything else (e.g. a shrinking candidate that cut a
+    character in two) is not an input of the property"""
+    try:
+        v = sx_parse(case)
+        if not isinstance(v, list) or len(v) != nargs + 1 or not 0 <= int(v[2]) <= USIZE_MAX:
+            return None
+        return v, unhex(v[1]).decode("utf-8"), int(v[2])
+    except Exception:
+        return None
+
+
 def wrap_oracle(case, impl):
-    if impl is None or impl.startswith(("PANIC", "ABORT", "harness-error", "unknown-mode")):
+    wf = well_formed(case, 3)
+    if wf is None:
+        return None
+    v, s, W = wf
+    if impl is None or impl.startswith(("PANIC", "ABORT", "harness-error", "unknown-mode", "badcase")):
         return "wrap did not return: %s" % impl
-    v = sx_parse(case)
-    s = unhex(v[1]).decode("utf-8")
-    W = int(v[2])
     r = parse_result(impl)
     o = unhex(r["out"][0]).decode("utf-8")
     if nonws(o) != nonws(s):
@@ -238,17 +251,20 @@ def wrap_oracle(case, impl):
 
 
 def wrap_nontrivial(case, impl):
+    if well_formed(case, 3) is None or not impl.startswith("(out"):
+        return False
     v = sx_parse(case)
     r = parse_result(impl)
     return unhex(r["out"][0]).count(b"\n") > unhex(v[1]).count(b"\n")
 
 
 def styled_oracle(case, impl):
-    if impl is None or impl.startswith(("PANIC", "ABORT", "harness-error", "unknown-mode")):
+    wf = well_formed(case, 4)
+    if wf is None:
+        return None
+    v, s, W = wf
+    if impl is None or impl.startswith(("PANIC", "ABORT", "harness-error", "unknown-mode", "badcase")):
         return "styled wrap did not return: %s" % impl
-    v = sx_parse(case)
-    s = unhex(v[1]).decode("utf-8")
-    W = int(v[2])
     r = parse_result(impl)
     o = unhex(r["out"][0]).decode("utf-8")
     if "\x1b" in SGR.sub("", s):
@@ -269,6 +285,8 @@ def styled_oracle(case, impl):
 
 
 def styled_nontrivial(case, impl):
+    if well_formed(case, 4) is None or not impl.startswith("(out"):
+        return False
     v = sx_parse(case)
     r = parse_result(impl)
     return "\x1b" in unhex(v[1]).decode("utf-8") and unhex(r["out"][0]).count(b"\n") > unhex(v[1]).count(b"\n")
@@ -361,5 +379,30 @@ def streams(tier, rng):
     ]
 
 
+def stale_newline_carryover(case):
+    """family C20-styled-stale-newline-carryover: a text segment of the styled string ends with a blank line
+    (its last split_inclusive line is whitespace-only and ends with a newline) and is followed by another text
+    segment.  StyledStr::wrap does not reset the LineWrapper between segments, so the carry-over "indent"
+    re-emitted after every inserted break is that blank line: each break becomes two (or more) line breaks."""
+    wf = well_formed(case, 4)
+    if wf is None:
+        return False
+    v, s, W = wf
+    b = s.encode("utf-8")
+    segs = [x for x in v[4][1:]] if isinstance(v[4], list) else []
+    try:
+        texts = [b[int(x[0]):int(x[1])].decode("utf-8") for x in segs]
+    except Exception:
+        return False
+    for t in texts[:-1]:
+        ls = split_inclusive(t)
+        if ls and ls[-1].endswith("\n") and all(c in WS for c in ls[-1]):
+            return True
+    return False
+
+
 def classify_known(stream, case, impl, failure):
+    """Only effective when known_findings.json lists the family (it does not by default)."""
+    if stream == "styled" and failure != "diff" and "ONE line break" in failure and stale_newline_carryover(case):
+        return "C20-styled-stale-newline-carryover"
     return None
